@@ -92,15 +92,11 @@ theorem empty_inv (pebble : Bool) (t : Int) : StoreInv (empty pebble) t := by
 
 /-! ### the nil-string finding -/
 
-/-- Pebble store after `APPEND k ""` on a missing key: the key holds Go's nil slice -/
+/-- a Pebble store whose key holds Go's nil slice.  Not reachable through the API any more (a fresh
+    string key now starts with the empty non-nil value); it satisfies the storage invariant. -/
 def nilState : MState :=
-  { pebble := true, nextId := 3, signalled := [[107]],
+  { pebble := true, nextId := 3,
     index := [([107], { exp := 0, value := some .strNil, state := 3, kid := 1, oid := 2, vtype := 1 })] }
-
-theorem nilState_reached : (Api.append (empty true) 0 [107] []).1 = nilState := by
-  simp [Api.append, empty, writeKey, getMeta, AList.get?, newKeyWith, fresh, putMeta, AList.set,
-    Meta.setValue, Meta.markModified, Api.asStr, valOf, DsStr.append, Api.setVal, Api.strVal, signal,
-    modMeta, emit, nilState, Val.typeCode, DsStr.len, DsStr.bytes]
 
 theorem putVarint_zero : Varint.putVarint 0 = [0] := by
   simp [Varint.putVarint, Varint.zigzag, Varint.putUvarint]
